@@ -342,6 +342,7 @@ class MultiTypeMap(dict):
 
         funcs.reverse()
 
+        writes = []
         parents = []
         for group, (func, codes) in zip(results, funcs):
             tups = (
@@ -350,15 +351,20 @@ class MultiTypeMap(dict):
                 else [(parent, *obj_t_tup) for parent in parents]
             )
             if func is None:
-                for tup in tups:
-                    self.errors[tup] = self.key_error(obj_t_tup, group)
+                err = self.key_error(obj_t_tup, group)
+                writes.extend((self.errors, tup, err) for tup in tups)
                 break
             else:
-                for tup in tups:
-                    self[tup] = func
+                writes.extend((self, tup, func) for tup in tups)
             if not codes:
                 break
             parents = codes
+
+        # The entry for obj_t_tup itself goes in last: whoever finds it can
+        # rely on the call_next entries being there, even if this was
+        # interrupted half-way.
+        for table, tup, value in reversed(writes):
+            table[tup] = value
 
         return True
 
